@@ -77,6 +77,12 @@ Definition transform_gates (defs : list FieldDef) : res (list FieldDef) :=
 Definition replace_subs (binding : ident) (repl : Node) (subs : list (FieldDef * Node)) : list (FieldDef * Node) :=
   map (fun s => if beq (n_typ (snd s)) binding then (fst s, repl) else s) subs.
 
+(* the same per field: one field through a substitution (parameter, node), parameter by parameter *)
+Definition subst1 (s : FieldDef * Node) (br : ident * Node) : FieldDef * Node :=
+  if beq (n_typ (snd s)) (fst br) then (fst s, snd br) else s.
+Definition subst_field (sigma : list (ident * Node)) (s : FieldDef * Node) : FieldDef * Node :=
+  fold_left subst1 sigma s.
+
 Fixpoint replace_loop (fx : bool) (self_args : list Generic) (nodes : archetypes)
          (req_args : list Generic) (args : list ident) (node : Node) : res Node :=
   match req_args with
